@@ -1,12 +1,13 @@
 #!/bin/bash
 # Offline setup after a fresh restore: warm the Go build cache and pre-build every check binary.
 export GOFLAGS=-mod=mod GOPROXY=off GOSUMDB=off GOTOOLCHAIN=local
-cd /verif/mc || exit 1
-mkdir -p /verif/.bin /verif/evidence /verif/replays
+ROOT=$(dirname "$(realpath "$0")")
+cd "$ROOT/mc" || exit 1
+mkdir -p "$ROOT/.bin" "$ROOT/evidence" "$ROOT/replays"
 rc=0
 for d in checks/*/; do
   c=$(basename "$d")
   if [ -x "$d/build.sh" ]; then "$d/build.sh" || rc=1
-  else go build -o "/verif/.bin/$c" "./$d" || rc=1; fi
+  else go build -o "$ROOT/.bin/$c" "./$d" || rc=1; fi
 done
 exit $rc
